@@ -3,6 +3,7 @@ package main
 // Evaluation of contract expressions to SMT terms over a symbolic state.
 
 import (
+	"os"
 	"fmt"
 	"go/constant"
 	"go/types"
@@ -110,6 +111,9 @@ func (env *SpecEnv) eval(e Expr) (Val, types.Type) {
 		}
 		if env.lookup != nil {
 			if ne, ok := env.lookup(x.Name); ok {
+				if os.Getenv("GOVC_DEBUG_NAMES") != "" {
+					fmt.Fprintf(os.Stderr, "name %s -> %#v addr=%v type=%v\n", x.Name, ne.V, ne.IsAddr, ne.T)
+				}
 				if ne.IsAddr {
 					el, _ := deref(ne.T)
 					loc := st.ptrToLoc(ne.V, el)
@@ -172,15 +176,10 @@ func (env *SpecEnv) eval(e Expr) (Val, types.Type) {
 		if x.Hi != nil {
 			hi = env.evalInt(x.Hi)
 		}
-		off := sl.Off
 		if lo != "0" {
-			off = "(+ " + sl.Off + " " + lo + ")"
+			sfail("spec slicing with non-zero low bound is not supported: %s", e)
 		}
-		ln := hi
-		if lo != "0" {
-			ln = "(- " + hi + " " + lo + ")"
-		}
-		return SliceV{sl.Base, off, ln}, t
+		return SliceV{sl.Base, "0", hi}, t
 	case *EQuant:
 		return env.evalQuant(x)
 	case *ECall:
@@ -525,10 +524,10 @@ func (env *SpecEnv) evalBin(x *EBin) (Val, types.Type) {
 		c, ct := env.eval(x.R)
 		switch cc := c.(type) {
 		case SetV:
-			return boolv(sSel(cc.T, k.(Sc).T)), tBool
+			return boolv(sSel(cc.T, asSc(k).T)), tBool
 		case Sc:
 			if m, ok := ct.Underlying().(*types.Map); ok {
-				return boolv(env.st.mapHas(m, cc.T, k.(Sc).T, env.snap())), tBool
+				return boolv(env.st.mapHas(m, cc.T, asSc(k).T, env.snap())), tBool
 			}
 		case SliceV:
 			el := ct.Underlying().(*types.Slice).Elem()
@@ -699,7 +698,7 @@ func (env *SpecEnv) evalCall(c *ECall) (Val, types.Type) {
 		if !ok {
 			sfail("keys() needs a map")
 		}
-		return SetV{T: st.mapDom(m, v.(Sc).T, env.snap()), K: vc.leaves(m.Key())[0].Sort}, &setType{K: m.Key()}
+		return SetV{T: st.mapDom(m, asSc(v).T, env.snap()), K: vc.leaves(m.Key())[0].Sort}, &setType{K: m.Key()}
 	case "deref":
 		v, t := env.eval(c.Args[0])
 		el, ok := deref(t)
@@ -710,13 +709,16 @@ func (env *SpecEnv) evalCall(c *ECall) (Val, types.Type) {
 	case "fresh":
 		// allocated after the old state
 		v, _ := env.eval(c.Args[0])
-		return boolv(fmt.Sprintf("(>= %s %s)", v.(Sc).T, env.oldAlloc)), tBool
+		if sl, ok := v.(SliceV); ok {
+			return boolv(fmt.Sprintf("(>= %s %s)", sl.Base, env.oldAlloc)), tBool
+		}
+		return boolv(fmt.Sprintf("(>= %s %s)", asSc(v).T, env.oldAlloc)), tBool
 	case "allocated":
 		v, _ := env.eval(c.Args[0])
 		if env.inOld {
-			return boolv(fmt.Sprintf("(< %s %s)", v.(Sc).T, env.oldAlloc)), tBool
+			return boolv(fmt.Sprintf("(< %s %s)", asSc(v).T, env.oldAlloc)), tBool
 		}
-		return boolv(fmt.Sprintf("(< %s %s)", v.(Sc).T, st.allocTerm())), tBool
+		return boolv(fmt.Sprintf("(< %s %s)", asSc(v).T, st.allocTerm())), tBool
 	case "typeis":
 		// typeis(ifaceExpr, "go type string")
 		v, _ := env.eval(c.Args[0])
@@ -741,21 +743,60 @@ func (env *SpecEnv) evalCall(c *ECall) (Val, types.Type) {
 			sfail("payload on non-interface")
 		}
 		return intv(iv.Pay), tInt
+	case "asptr":
+		// asptr(ifaceExpr, TypeName): the payload as a pointer to the named type
+		v, _ := env.eval(c.Args[0])
+		iv, ok := v.(IfaceV)
+		if !ok {
+			sfail("asptr on non-interface")
+		}
+		id, ok := c.Args[1].(*EIdent)
+		var tn string
+		if ok {
+			tn = id.Name
+		} else if sel, ok := c.Args[1].(*ESel); ok {
+			tn = sel.String()
+		} else {
+			sfail("asptr needs a type name")
+		}
+		nt, err := vc.resolveNamed(tn, env.pkg)
+		if err != nil {
+			sfail("asptr: %v", err)
+		}
+		return intv(iv.Pay), types.NewPointer(nt)
+	case "isptr":
+		// isptr(ifaceExpr, TypeName): dynamic type is *TypeName
+		v, _ := env.eval(c.Args[0])
+		iv, ok := v.(IfaceV)
+		if !ok {
+			sfail("isptr on non-interface")
+		}
+		var tn string
+		if id, ok := c.Args[1].(*EIdent); ok {
+			tn = id.Name
+		} else if sel, ok := c.Args[1].(*ESel); ok {
+			tn = sel.String()
+		}
+		nt, err := vc.resolveNamed(tn, env.pkg)
+		if err != nil {
+			sfail("isptr: %v", err)
+		}
+		return boolv(sEq(iv.Tag, vc.typeID(types.NewPointer(nt)))), tBool
 	case "setadd":
 		s, t := env.eval(c.Args[0])
 		k := env.evalInt(c.Args[1])
-		return SetV{T: sStore(s.(SetV).T, k, "true"), K: s.(SetV).K}, t
+		return SetV{T: sStore(asSet(s).T, k, "true"), K: asSet(s).K}, t
 	case "setdel":
 		s, t := env.eval(c.Args[0])
 		k := env.evalInt(c.Args[1])
-		return SetV{T: sStore(s.(SetV).T, k, "false"), K: s.(SetV).K}, t
+		return SetV{T: sStore(asSet(s).T, k, "false"), K: asSet(s).K}, t
 	case "emptyset":
 		return SetV{T: "((as const (Array Int Bool)) false)", K: SInt}, &setType{K: tInt}
 	case "seqset":
 		s, t := env.eval(c.Args[0])
 		k := env.evalInt(c.Args[1])
 		v := env.evalInt(c.Args[2])
-		return Sc{sStore(s.(Sc).T, k, v), s.(Sc).S}, t
+		return Sc{sStore(asSc(s).T, k, v), asSc(s).S}, t
 	case "toreal":
 		return Sc{"(to_real " + env.evalInt(c.Args[0]) + ")", SReal}, types.Typ[types.Float64]
 	case "toint":
@@ -834,4 +875,25 @@ func splitConj(e Expr) []Expr {
 		}
 	}
 	return []Expr{e}
+}
+
+func asSc(v Val) Sc {
+	switch x := v.(type) {
+	case Sc:
+		return x
+	case LocV:
+		if x.Prefix == "" && !x.Elem {
+			return intv(x.Obj)
+		}
+	}
+	sfail("scalar value expected, got %T", v)
+	return Sc{}
+}
+
+func asSet(v Val) SetV {
+	if s, ok := v.(SetV); ok {
+		return s
+	}
+	sfail("set value expected, got %T", v)
+	return SetV{}
 }
